@@ -324,7 +324,7 @@ CELLS.append(tletter.letter_cell('T1', 'put_line_comment', 'x = 1  # old ¡\ny =
                                  pre=lambda xs: not chr(xs[2]).isspace()))   # documented: the comment text is returned stripped of trailing whitespace (U+3000 counts)
 CELLS.append(tletter.letter_cell('T1', 'put_line_comment_block', 'if c:  # ¡\n    x = 1  # s\n    y = 2\nz = 3\n', _s_put_comment_blk, queries=_q_comments, tier='quick', extra='¢£¤',
                                  pre=lambda xs: not chr(xs[1]).isspace() and not chr(xs[2]).isspace() and not chr(xs[3]).isspace()))
-_Q = {'list4c', 'ifbody3', 'dict3', 'tuple3', 'uni_list', 'handlers'}
+_Q = {'list4c', 'ifbody3', 'dict3', 'tuple3', 'uni_list', 'handlers', 'strstmts'}
 for _c in pc.CARRIERS:
     for _form in ('cut_put', 'own_copy', 'own_ast', 'own_src'):
         if _form != 'cut_put' and not _c.elem_ops:
